@@ -944,6 +944,106 @@ fn run_kadpid(c: &Value, rng: &mut StdRng, out: &mut Out) {
     out.push(json!({"e": "cls", "kind": "kadpid", "c": c, "out": o, "alloc": alloc, "limit": KAD_LIMIT, "input": hex::encode(&m), "note": note}));
 }
 
+/// G. a Bitswap payload block of class `c`, through `block_to_response` and, inside a whole
+/// wire message, through `Bitswap::on_message_received`.
+fn run_bsblk(c: &Value, rng: &mut StdRng, h: &mut bs::BitswapHarness, handle: &mut bs::BitswapHandle, out: &mut Out) {
+    let f = |k: &str| c[k].as_str().unwrap();
+    let (code, size): (u64, u64) = match f("hash") {
+        "sha2_256" => (0x12, 32),
+        "sha2_512" => (0x13, 64),
+        "sha3_256" => (0x16, 32),
+        "sha3_384" => (0x15, 48),
+        "keccak_256" => (0x1b, 32),
+        "blake2b_256" => (0xb220, 32),
+        "blake2b_512" => (0xb240, 64),
+        "identity" => (0x00, 32),
+        _ => (*[0x11u64, 0x1e, 0x7777, 0xb250, u64::MAX].choose(rng).unwrap(), 32),
+    };
+    let version: u64 = match f("ver") {
+        "v0" => 0,
+        "v1" => 1,
+        _ => *[2u64, 3, 127, 128, u64::MAX].choose(rng).unwrap(),
+    };
+    let codec: u64 = match f("codec") {
+        "dagpb" => 0x70,
+        "raw" => 0x55,
+        _ => *[0x71u64, 0x0129, 0x00, u64::MAX].choose(rng).unwrap(),
+    };
+    let mhlen: u64 = match f("mhlen") {
+        "0" => 0,
+        "1" => 1,
+        "size_m1" => size - 1,
+        "size" => size,
+        "size_p1" => size + 1,
+        "64" => 64,
+        "65" => 65,
+        "127" => 127,
+        "255" => 255,
+        _ => *[256u64, 300, 16384, 1 << 32, u64::MAX].choose(rng).unwrap(),
+    };
+    let four = [uvarint(version), uvarint(codec), uvarint(code), uvarint(mhlen)];
+    let prefix: Vec<u8> = match f("shape") {
+        "ok" => four.concat(),
+        "three" => four[..3].concat(),
+        "five" => [four.concat(), uvarint(rng.gen_range(0..300))].concat(),
+        "trailing" => [four.concat(), vec![*[0x80u8, 0xff, 0x81].choose(rng).unwrap()]].concat(),
+        _ => {
+            let k = rng.gen_range(0..4);
+            let mut e = four.to_vec();
+            e[k] = [vec![0x81u8; 10 + rng.gen_range(0..3)], vec![0x01]].concat();
+            e.concat()
+        }
+    };
+    let data = match f("plen") {
+        "0" => vec![],
+        "1" => vec![rng.gen()],
+        _ => rand_bytes_in(rng, 2, 300),
+    };
+    let peer = PeerId::random();
+    let usable = |cid: &cid::Cid| -> Result<(), String> {
+        let b = cid.to_bytes();
+        (cid::Cid::read_bytes(&b[..]).ok().as_ref() == Some(cid) && cid.to_string().parse::<cid::Cid>().ok().as_ref() == Some(cid))
+            .then_some(())
+            .ok_or_else(|| "cid: to_bytes/read_bytes or text form does not round-trip".to_string())
+    };
+    // function level
+    let (r, alloc) = measured(|| bs::block_to_response(&peer, prefix.clone(), data.clone()));
+    let o = match &r {
+        Err(_) => "panic",
+        Ok(None) => "dropped",
+        Ok(Some(bs::ResponseType::Block { cid, block })) if block == &data => match catch(|| usable(cid)) {
+            Ok(Ok(())) => "value",
+            _ => "unusable",
+        },
+        Ok(Some(_)) => "unusable",
+    };
+    let o = if fault("bsblk-panic") && c["mhlen"] == "size_p1" && c["hash"] == "sha2_256" { "panic" } else { o };
+    out.push(json!({"e": "cls", "kind": "bsblk", "via": "fn", "c": c, "out": o, "alloc": alloc, "limit": bs::MAX_MESSAGE_SIZE,
+                    "prefix": hex::encode(&prefix), "plen": data.len()}));
+    // message level: optional wantlist, a presence, the block
+    let mut msg = vec![];
+    if rng.gen() {
+        msg.extend(pb_bytes(1, &[]));
+    }
+    let mut blk = pb_bytes(1, &prefix);
+    blk.extend(pb_bytes(2, &data));
+    msg.extend(pb_bytes(3, &blk));
+    if rng.gen() {
+        msg.extend(pb_bytes(4, &pb_bytes(1, &real_cid(b"p").to_bytes())));
+    }
+    let (o, alloc, evs) = bitswap_decode(h, handle, &msg);
+    let delivered = evs.iter().any(|ev| matches!(ev, bs::BitswapEvent::Response { responses, .. }
+        if responses.iter().any(|r| matches!(r, bs::ResponseType::Block { block, .. } if block == &data))));
+    let o = match o {
+        "panic" => "panic",
+        "err" => "undecodable-message", // the hand-written message itself must decode
+        _ if delivered => "value",
+        _ => "dropped",
+    };
+    out.push(json!({"e": "cls", "kind": "bsblk", "via": "msg", "c": c, "out": o, "alloc": alloc, "limit": bs::MAX_MESSAGE_SIZE,
+                    "message": hex::encode(&msg[..msg.len().min(600)]), "plen": data.len()}));
+}
+
 fn pb_event(dec: &str, op: &str, o: &str, alloc: i64, limit: usize, len: usize) -> Value {
     json!({"e": "pb", "dec": dec, "op": op, "out": o, "alloc": alloc, "limit": limit, "len": len})
 }
@@ -1455,6 +1555,7 @@ fn work(args: &Args, out: &mut Out) {
     let rt = tokio::runtime::Builder::new_current_thread().enable_all().build().unwrap();
     let id_rig = IdentifyRig { rt: tokio::runtime::Builder::new_current_thread().enable_all().build().unwrap() };
     let mut unrealisable = 0u64;
+    let (mut bsh, mut bshandle) = bs::BitswapHarness::new();
     for (i, b) in args.get("behaviours").map(read_jsonl).unwrap_or_default().iter().enumerate() {
         let mut rng = rng_for(seed, i as u64);
         let kind = b["kind"].as_str().unwrap();
@@ -1481,6 +1582,7 @@ fn work(args: &Args, out: &mut Out) {
             "lis" => (0..per).for_each(|_| run_lis(&b["c"], &mut rng, out)),
             "dia" => (0..per).for_each(|_| run_dia(&b["c"], &mut rng, out)),
             "kadpid" => (0..per).for_each(|_| run_kadpid(&b["c"], &mut rng, out)),
+            "bsblk" => (0..per.min(3)).for_each(|_| run_bsblk(&b["c"], &mut rng, &mut bsh, &mut bshandle, out)),
             "pb" => {} // the plan is executed as a whole below
             "rt_kad" => (0..per.min(4)).for_each(|_| run_rt_kad(&b["c"], &mut rng, out)),
             "rt_bitswap" => run_rt_bitswap(&b["c"], &mut rng, &rt, out),
